@@ -161,10 +161,12 @@ class TranscriptAnnotationModel():
     def get_cds_end_index(self, seq:Seq, start:int) -> int:
         """ Returns the CDS stop index of the transcript. """
         if self.three_utr:
+            # The CDS features end where the stop codon starts in both GENCODE
+            # and ENSEMBL GTFs, while only GENCODE's UTR includes the stop codon.
             if self.transcript.strand == 1:
-                end = self.get_transcript_index(self.three_utr[0].location.start)
+                end = self.get_transcript_index(self.cds[-1].location.end - 1) + 1
             else:
-                end = self.get_transcript_index(self.three_utr[-1].location.end - 1)
+                end = self.get_transcript_index(self.cds[0].location.start) + 1
             return end - (end - start) % 3
         return len(seq) - (len(seq) - start) % 3
 
